@@ -733,6 +733,74 @@ func Main(prop string) {
 		run.Count("mode:" + mode)
 		w.runHistory(genOps(r, t, prop, mode))
 	}
+	// Directed histories (C03): a rewind that leaves a side chain behind without its lower ancestors, then an import on
+	// top of the orphans (formerly two nil dereferences, fixed by 2ee9efd / 7235ac1: now refused with ErrUnknownAncestor).
+	if prop == "C03" {
+		for di, mode := range []string{"headers", "pruning", "archive"} {
+			r := rng.Fork(uint64(0xD1EC7 + di))
+			t := chainx.NewTree(chainx.Opts{WithTxs: true, MinOffset: -9, MaxOffset: 400, ForkFree: true})
+			var main []int
+			tip := 0
+			for i := 0; i < 4+r.Intn(3); i++ {
+				tip = t.AddChild(r, tip).ID
+				main = append(main, tip)
+			}
+			t.Opts.MinOffset, t.Opts.MaxOffset = 1500, 2000 // lighter side chain on top of the first block
+			o1 := t.AddChild(r, main[0]).ID
+			o2 := t.AddChild(r, o1).ID
+			o3 := t.AddChild(r, o2).ID
+			kind := byte('I')
+			if mode == "headers" {
+				kind = 'H'
+			}
+			ops := []Op{{Kind: kind, IDs: main}, {Kind: kind, IDs: []int{o1, o2}}}
+			if mode == "pruning" {
+				ops = append(ops, Op{Kind: 'R'})
+			}
+			ops = append(ops, Op{Kind: 'S', N: 0}, Op{Kind: kind, IDs: []int{o3}}, Op{Kind: kind, IDs: main}, Op{Kind: kind, IDs: []int{o1, o2, o3}})
+			w := &world{prop: prop, run: run, t: t, mode: mode, histID: fmt.Sprintf("hist#orphan-%s", mode)}
+			if mode == "pruning" {
+				w.cache = &core.CacheConfig{Disabled: false, TrieNodeLimit: 1, TrieTimeLimit: time.Millisecond}
+			} else {
+				w.cache = &core.CacheConfig{Disabled: true}
+			}
+			run.Count("mode:directed-orphan-" + mode)
+			w.runHistory(ops)
+		}
+	}
+	// Directed histories: a long light branch carrying transactions in its top blocks is replaced by a shorter heavier one
+	// in one reorganisation (number entries AND lookups of the blocks above the new height must go), full and header-first.
+	for di, mode := range []string{"archive", "pruning", "headers"} {
+		r := rng.Fork(uint64(0x5407 + di))
+		t := chainx.NewTree(chainx.Opts{WithTxs: true, MinOffset: 1500, MaxOffset: 2000, ForkFree: true})
+		a, b := 0, 0
+		var long, short []int
+		for i := 0; i < 10+r.Intn(2); i++ {
+			a = t.AddChild(r, a).ID
+			long = append(long, a)
+		}
+		t.Opts.MinOffset, t.Opts.MaxOffset = -9, 0
+		for i := 0; i < len(long)-1 && t.Td(b).Cmp(t.Td(a)) <= 0; i++ {
+			b = t.AddChild(r, b).ID
+			short = append(short, b)
+		}
+		kind := byte('I')
+		if mode == "headers" {
+			kind = 'H'
+		}
+		ops := []Op{{Kind: kind, IDs: long}, {Kind: kind, IDs: short}}
+		if mode == "pruning" {
+			ops = []Op{{Kind: kind, IDs: long}, {Kind: 'R'}, {Kind: kind, IDs: short[:1]}, {Kind: kind, IDs: short[1:]}}
+		}
+		w := &world{prop: prop, run: run, t: t, mode: mode, histID: fmt.Sprintf("hist#shorter-heavier-%s", mode)}
+		if mode == "pruning" {
+			w.cache = &core.CacheConfig{Disabled: false, TrieNodeLimit: 1, TrieTimeLimit: time.Millisecond}
+		} else {
+			w.cache = &core.CacheConfig{Disabled: true}
+		}
+		run.Count("mode:directed-shorter-heavier-" + mode)
+		w.runHistory(ops)
+	}
 	// A chain longer than triesInMemory (128) on a pruning node with the default-sized cache: the states of the oldest
 	// blocks are garbage collected DURING import (no restart involved). Not covered by the Lean model; judged directly.
 	{
